@@ -21,7 +21,7 @@ type histCfg struct {
 }
 
 type reporter struct {
-	c        *verdict.Ctx
+	c        vctx
 	hist     int
 	cfg      histCfg
 	plans    []cutPlan // crash outcomes applied on the path to the current directory
